@@ -120,6 +120,42 @@ theorem coupled_callReadCb (u : User) (b : Bool) (s : St) (n : Int) (buf : Optio
   unfold callReadCb
   exact coupled_runOps b _ _ h
 
+/-- state right after the `alloc` event of a round, before its read_cb -/
+structure CP (tr : List Ev) (kbuf0 : List Byte) (peerShut : Bool) (nAlloc : Nat) (id sz : Nat) : Prop where
+  okPair : (mon tr).okPair = true
+  okQuiet : (mon tr).okQuiet = true
+  okEof : (mon tr).okEof = true
+  pend : (mon tr).pending = some (id, sz)
+  cons : (mon tr).sentB = (mon tr).deliv ++ kbuf0
+  shut : (mon tr).shut = peerShut
+  nal : (mon tr).nAl = nAlloc
+  q : (mon tr).quiet = false
+
+theorem coupled_afterRead (u : User) (s : St) (id sz : Nat) (kbuf0 : List Byte) (r : RRes)
+    (h : CP s.trace kbuf0 s.peerShut s.nAlloc id sz) (hr : s.reading = true) (hsz : sz ≠ 0)
+    (hk : KOk kbuf0 s.peerShut sz (r, s.kbuf)) :
+    Coupled false (afterRead u s id sz r).1 := by
+  obtain ⟨h1, h2, h3, h4, h5, h6, h7, h8⟩ := h
+  cases r with
+  | eagain =>
+    simp only [KOk] at hk
+    simp only [afterRead]
+    apply coupled_callReadCb
+    split <;> (constructor <;> simp_all [emit, mon_append, Mon.step, quieting, UV_ENOBUFS, UV_EOF])
+  | err e =>
+    simp only [KOk] at hk
+    simp only [afterRead]
+    sorry
+  | eof =>
+    simp only [KOk] at hk
+    simp only [afterRead, streamEof]
+    apply coupled_callReadCb
+    constructor <;> simp_all [emit, mon_append, Mon.step, quieting, UV_ENOBUFS, UV_EOF]
+  | data bs =>
+    simp only [KOk] at hk
+    simp only [afterRead]
+    sorry
+
 theorem coupled_readRound (u : User) (s : St) (h : Coupled false s) (hr : s.reading = true) :
     Coupled false (readRound u s).1 := by
   obtain ⟨h1, h2, h3, h4, h5, h6, h7, h8⟩ := h
@@ -128,28 +164,12 @@ theorem coupled_readRound (u : User) (s : St) (h : Coupled false s) (hr : s.read
   by_cases hz : u.allocS s.nAlloc = 0
   · simp only [hz, if_true]
     apply coupled_callReadCb
-    constructor <;> simp_all [emit, mon_append, Mon.step, quieting, UV_ENOBUFS]
+    constructor <;> simp_all [emit, mon_append, Mon.step, quieting, UV_ENOBUFS, UV_EOF]
   · simp only [hz, if_false]
-    have hk := kread_ok s.kbuf s.peerShut (u.allocS s.nAlloc) (skipEintr s.oracle).2.1
-    revert hk
-    generalize kread s.kbuf s.peerShut (u.allocS s.nAlloc) (skipEintr s.oracle).2.1 = kr
-    obtain ⟨r, kb⟩ := kr
-    intro hk
-    cases r with
-    | eagain =>
-      simp only [KOk] at hk
-      simp only [emit]
-      apply coupled_callReadCb
-      split <;> (constructor <;> simp_all [emit, mon_append, Mon.step, quieting, UV_ENOBUFS])
-    | err e =>
-      simp only [KOk] at hk
-      simp only [emit]
-      sorry
-    | eof =>
-      simp only [KOk] at hk
-      sorry
-    | data bs =>
-      simp only [KOk] at hk
-      sorry
+    apply coupled_afterRead u _ _ _ s.kbuf
+    · constructor <;> simp_all [emit, mon_append, Mon.step]
+    · simpa [emit] using hr
+    · exact hz
+    · simpa [emit] using kread_ok s.kbuf s.peerShut (u.allocS s.nAlloc) (skipEintr s.oracle).2.1
 
 end UvModel.StreamR
